@@ -215,9 +215,24 @@ def run_case(tree, case, rnd):
                     f.write("SOMEBODY-ELSES-FILE %s\n" % cand)
     line, content = build_request(case, rnd)
     before = snapshot(tree.top)
-    if case["fault"] == "none":
+    if case["fault"] in ("none", "logfail"):
         handler = make_handler(case, up, rnd)
-        st = run_protocol(handler, line, content, rnd)
+        if case["fault"] == "logfail":
+            from nauyaca.server import protocol as srvproto
+            orig_logger = srvproto.logger
+
+            class FailingLog:
+                def __getattr__(self, name):
+                    def f(*a, **kw):
+                        raise rnd.choice([OSError(28, "No space left on device"), UnicodeEncodeError("ascii", "caf\u00e9", 3, 4, "ordinal not in range(128)")])
+                    return f
+            srvproto.logger = FailingLog()
+            try:
+                st = run_protocol(handler, line, content, rnd)
+            finally:
+                srvproto.logger = orig_logger
+        else:
+            st = run_protocol(handler, line, content, rnd)
     else:
         r, w = os.pipe()
         pid = os.fork()
@@ -465,7 +480,7 @@ def main(pid="C14"):
         for _ in range(nf):
             cases.append({"L": rnd.choice(slots), "path": rnd.choice(paths), "size": rnd.choice(["ok", "ok", "zero"]),
                           "token": rnd.choice(["notneeded", "right"]), "mime": rnd.choice(["nolist", "allowed"]),
-                          "deleteOn": True, "fault": rnd.choice(["partial", "perm", "dropbox"])})
+                          "deleteOn": True, "fault": rnd.choice(["partial", "perm", "dropbox", "logfail"])})
         for c in cases:
             c["M"] = {"k": "absent", "to": "-"}
         # trees in which a second link (up/M) points at itself: what Path.resolve() returns there is only partly resolved
